@@ -104,6 +104,14 @@ b('C06', 'swallow cancellation in download', 'transfer/manager.py', "           
   "            logger.debug(\"requested to cancel transfer: %s\", transfer)\n            await connection.disconnect(CloseReason.REQUESTED)\n\n        else:\n            await connection.disconnect(CloseReason.REQUESTED)", 'R-C06-TASK-CLEANUP')
 b('C06', 'callback clears unconditionally', 'transfer/model.py', "        if self._transfer_task is task:\n            self._transfer_task = None", "        self._transfer_task = None", 'R-C06-SLOT-CLEAR')
 b('C06', 'selection no longer excludes live tasks', 'transfer/manager.py', "            if any(not task.done() for task in transfer.get_tasks()):\n                continue\n", "", 'R-C06-SLOT-WRITE')
+k('C06', 'cancel_tasks as a loop over get_tasks', 'transfer/model.py', "        tasks = []\n        if self._remotely_queue_task is not None:\n            tasks.append(self._remotely_queue_task)\n            self._remotely_queue_task.cancel()\n\n        if self._transfer_task is not None:\n            tasks.append(self._transfer_task)\n            self._transfer_task.cancel()\n\n        return tasks",
+  "        tasks = self.get_tasks()\n        for task in tasks:\n            task.cancel()\n        return tasks")
+k('C06', 'cancel_tasks as a loop over a tuple', 'transfer/model.py', "        tasks = []\n        if self._remotely_queue_task is not None:\n            tasks.append(self._remotely_queue_task)\n            self._remotely_queue_task.cancel()\n\n        if self._transfer_task is not None:\n            tasks.append(self._transfer_task)\n            self._transfer_task.cancel()\n\n        return tasks",
+  "        tasks = [t for t in (self._remotely_queue_task, self._transfer_task) if t is not None]\n        for task in tasks:\n            task.cancel()\n        return tasks")
+b('C06', 'cancel_tasks cancels only the first set slot', 'transfer/model.py', "        tasks = []\n        if self._remotely_queue_task is not None:\n            tasks.append(self._remotely_queue_task)\n            self._remotely_queue_task.cancel()\n\n        if self._transfer_task is not None:\n            tasks.append(self._transfer_task)\n            self._transfer_task.cancel()\n\n        return tasks",
+  "        task = self._remotely_queue_task or self._transfer_task\n        if task is None:\n            return []\n        task.cancel()\n        return [task]", 'R-C06-CANCEL-ALL')
+b('C06', 'cancel_tasks: second slot only if first empty', 'transfer/model.py', "        tasks = []\n        if self._remotely_queue_task is not None:\n            tasks.append(self._remotely_queue_task)\n            self._remotely_queue_task.cancel()\n\n        if self._transfer_task is not None:\n            tasks.append(self._transfer_task)\n            self._transfer_task.cancel()\n\n        return tasks",
+  "        tasks = []\n        if self._remotely_queue_task is not None:\n            tasks.append(self._remotely_queue_task)\n            self._remotely_queue_task.cancel()\n        elif self._transfer_task is not None:\n            tasks.append(self._transfer_task)\n            self._transfer_task.cancel()\n\n        return tasks", 'R-C06-CANCEL-ALL')
 k('C06', 'guard as nested if', 'transfer/model.py', "        if self._transfer_task is task:\n            self._transfer_task = None", "        if self._transfer_task is not task:\n            return\n        self._transfer_task = None")
 # ---------------------------------------------------------------- C07
 b('C07', 'drop IGNORECASE', 'shares/utils.py', "            r\"(?:(?<=\\W|_)|^){}(?=[\\W_]|$)\".format(re.escape(term)),\n            flags=re.IGNORECASE", "            r\"(?:(?<=\\W|_)|^){}(?=[\\W_]|$)\".format(re.escape(term)),\n            flags=0", 'R-C07-SPLIT')
